@@ -131,6 +131,7 @@ def main(argv):
     if a.tier not in ('quick', 'thorough'):
         a.tier = 'quick'
     prop = a.property
+    os.environ['VP_TIER'] = a.tier
     seed = int(os.environ.get('VERIF_SEED', '0') or 0)
     t0 = time.time()
     scratch = tempfile.mkdtemp(prefix='vp.')
